@@ -33,7 +33,7 @@ pub fn stub_decompress_reject(_d: &[u8], _v: bool, _l: u32) -> Result<Decompress
 // ---------------------------------------------------------------------------
 // C13 seams: fragmenting / failing reader and writer
 // ---------------------------------------------------------------------------
-pub const FR_N: usize = 10;
+pub const FR_N: usize = 40;
 /// Source over a fixed buffer whose every `read` returns a solver-chosen 1..=want bytes,
 /// may report ErrorKind::Interrupted (at most `intr` times), and fails hard at offset `fail_at`.
 pub struct FragRead {
